@@ -338,6 +338,11 @@ func (g *gctx) genArgs(d int, ar int) *gnode {
 	if g.r.Intn(5) == 0 {
 		g.use("kwarg-unpack")
 		items = append(items, gn("**{ky: ", pos("pair-value", g.genI(d)), "}"))
+		if g.r.Bool() {
+			// a second expansion sharing a key with the first: the first occurrence wins
+			g.use("kwarg-unpack-twice")
+			items = append(items, gn("**{ky: ", pos("pair-value", g.genI(d)), ", kx: ", pos("pair-value", g.genI(d)), "}"))
+		}
 	}
 	// multi-line layouts: continuation lines may start in a smaller column than the arguments before them
 	multi := g.r.Intn(5) == 0
